@@ -30,7 +30,7 @@ var jsUniverse = []string{"a0", "a1", "a2", "a3", "a4", "a5"}
 
 // jsGlobalNames are names an argument may have that the global object of a runtime already knows:
 // own properties (built-ins) and inherited ones.
-var jsGlobalNames = []string{"Math", "toString", "valueOf", "hasOwnProperty", "constructor", "escape", "Number", "Math"}
+var jsGlobalNames = []string{"Math", "toString", "valueOf", "hasOwnProperty", "constructor", "escape", "Number", "Math", "__proto__"}
 
 func isJSGlobalName(n string) bool {
 	for _, g := range jsGlobalNames {
@@ -70,7 +70,7 @@ func drawCalls(t *tape.Tape, family string) []jsCall {
 		c := jsCall{}
 		c.ctx = t.Weighted("js.ctx", 3, 2) == 1
 		kinds := []string{"echo", "concat", "sum", "arr", "obj", "probe", "probe", "probe", "node", "nan", "inf", "null", "undef", "throw", "syntax", "oddargs",
-			"throwstr", "posinf", "nested", "objnull", "arrnull", "booleq", "echo", "mathfloor", "neginf2", "getter", "globals", "globals", "probethrow", "probethrow", "probethrow", "badname", "badname", "nodeindirect", "nodeindirect"}
+			"throwstr", "posinf", "nested", "objnull", "arrnull", "booleq", "echo", "mathfloor", "neginf2", "getter", "globals", "globals", "probethrow", "probethrow", "probethrow", "badname", "badname", "nodeindirect", "nodeindirect", "latejob", "latejob", "latejob"}
 		c.kind = kinds[t.Intn("js.kind", len(kinds))]
 		if c.kind == "node" {
 			c.ctx = true
@@ -130,6 +130,11 @@ func drawCalls(t *tape.Tape, family string) []jsCall {
 					}
 				}
 			}
+		}
+		if c.kind == "latejob" {
+			// one script text for all calls of this kind (runtimes are pooled per script): its one
+			// argument is an array, as another declaration's result would be
+			c.names, c.vals = []string{"a0"}, []interface{}{[]interface{}{"v" + fmt.Sprint(t.Intn("js.latejob.v", 1000))}}
 		}
 		if c.kind == "concat" {
 			c.vals[0], c.vals[1] = "s"+fmt.Sprint(t.Intn("js.s", 100)), "t"
@@ -206,6 +211,11 @@ func (c jsCall) script() string {
 		return c.names[0] + " === " + c.names[0]
 	case "mathfloor":
 		return "Math.floor(7.5)"
+	case "latejob":
+		// script code that runs after the program has ended (a getter, called when the result is
+		// converted) leaves work for later: a promise job, which the engine runs when the NEXT program
+		// run on that runtime ends. It changes the argument array it finds then.
+		return "({get n() { var mine = a0.slice(); Promise.resolve().then(function() { a0.push('late:' + mine.join()) }); return mine.length }, list: a0})"
 	case "getter":
 		// an exception thrown while the result is being converted (a getter) is still a thrown exception
 		return "({get x() { throw new Error('getter boom') }})"
@@ -319,6 +329,8 @@ func (c jsCall) expected(nodeJSON string) (val interface{}, isErr bool) {
 		return s, false
 	case "node":
 		return nodeJSON, false
+	case "latejob":
+		return map[string]interface{}{"n": int64(1), "list": c.vals[0]}, false
 	case "nodeindirect":
 		if c.ctx {
 			return nodeJSON, false
